@@ -1,1 +1,45 @@
-int main(){return 0;}
+// REPLAY / native cross-check adapter for unit assets_fs (C20): the REAL Assets on a real directory tree with a secret outside the root and
+// inside-/outside-pointing symlinks. For the name in the input (key IN, hex bytes; optional) and a built-in traversal corpus, the bytes
+// returned by getStatic()/getTemplate() must never be the secret. (The proofs of this unit are about call order over arbitrary
+// filesystem answers; their counterexamples are call sequences, not inputs, so this adapter is a cross-check, not a SEARCH target.)
+#include "iora/web/assets.hpp"
+#include "replay_io.h"
+#include <filesystem>
+#include <fstream>
+#include <unistd.h>
+namespace fs = std::filesystem;
+static void put(const fs::path &p, const std::string &s) { fs::create_directories(p.parent_path()); std::ofstream(p, std::ios::binary) << s; }
+int main(int argc, char **argv) {
+  std::vector<std::string> names = {"a.txt", "sub/b.txt", "../secret.txt", "sub/../../secret.txt", "/etc/hostname", "out.txt", "outdir/secret.txt",
+    "sub/..", "..", "...", "sub//b.txt", "sub/./b.txt", "a.txt/", "..\\secret.txt", std::string("a.txt\0x", 7), "in.txt", "a.txt.gz", "evil.js", ""};
+  if (argc > 1) { auto in = replay_io::load(argv[1]); if (in.count("IN")) { auto d = replay_io::bytes(in["IN"]); names.emplace_back(d.begin(), d.end()); } }
+  fs::path base = fs::temp_directory_path() / ("iora_assets_replay_" + std::to_string(::getpid()));
+  fs::remove_all(base);
+  const std::string SECRET = "TOP-SECRET-OUTSIDE-ROOT";
+  put(base / "secret.txt", SECRET); put(base / "secretdir/secret.txt", SECRET);
+  for (const char *r : {"static", "templates"}) {
+    fs::path root = base / "root" / r;
+    put(root / "a.txt", "A"); put(root / "sub/b.txt", "B"); put(root / "evil.js", "E");
+    fs::create_symlink(base / "secret.txt", root / "out.txt");            // leaf symlink leading outside
+    fs::create_directory_symlink(base / "secretdir", root / "outdir");    // directory symlink leading outside
+    fs::create_symlink(root / "a.txt", root / "in.txt");                  // symlink staying inside
+    fs::create_symlink(base / "secret.txt", root / "evil.js.gz");         // .gz sibling that is a symlink leading outside
+  }
+  int bad = 0;
+  for (bool perRequest : {false, true}) {
+    auto assets = iora::web::Assets::fromDirectory(base / "root", perRequest);
+    for (const auto &n : names) {
+      auto r = assets.getStatic(n);
+      if (r.status == iora::web::GetStaticResult::Status::Found) {
+        if (std::string(r.blob.bytes) == SECRET) { printf("getStatic(\"%s\") returned the secret\n", n.c_str()); bad++; }
+        if (r.blob.gzipBytes && std::string(*r.blob.gzipBytes) == SECRET) { printf("getStatic(\"%s\") returned the secret as gzip variant\n", n.c_str()); bad++; }
+      }
+      auto t = assets.getTemplate(n);
+      if (t && std::string(*t) == SECRET) { printf("getTemplate(\"%s\") returned the secret\n", n.c_str()); bad++; }
+    }
+  }
+  fs::remove_all(base);
+  if (bad) replay_io::fail("content from outside the root was returned");
+  replay_io::ok("no lookup returned content from outside the root");
+  return 0;
+}
